@@ -223,7 +223,7 @@ pub fn part_json(property: &str, tier: Tier, results: &[SpaceResult], rule: &str
 pub fn default_caps(tier: Tier) -> Caps {
     let threads = std::env::var("VERIF_THREADS").ok().and_then(|s| s.parse().ok()).unwrap_or_else(|| std::thread::available_parallelism().map(|n| n.get()).unwrap_or(4));
     let wall = std::env::var("VERIF_WALL_S").ok().and_then(|s| s.parse().ok()).unwrap_or(match tier {
-        Tier::Quick => 40,
+        Tier::Quick => 60,
         Tier::Thorough => 3600,
     });
     Caps { wall: Duration::from_secs(wall), rss_mb: 8192, hang: Duration::from_secs(20), threads }
